@@ -6,6 +6,9 @@ import sys
 sys.path.insert(0, os.path.dirname(os.path.dirname(os.path.abspath(__file__))))
 
 MODULES = {
+    "C02": ("checks.capi_tv", "C02"),
+    "C07": ("checks.capi_tv", "C07"),
+    "C15": ("checks.capi_tv", "C15"),
     "C04": ("checks.alloc", "C04"),
     "C12": ("checks.alloc", "C12"),
 }
